@@ -4,8 +4,8 @@ The helper contracts (contracts/pylong_binop.py, compare.py, pyfloat_binop.py) a
     an int constant satisfies |c| <= 2**30      ((double) c exact, digit cases of the compact / 2-digit paths, no overflow of c +- x);
     a division-like operator never gets the constant divisor 0;
     the variable operand is a Python object (generic object or an int-typed one).
-Those conditions are established by the first part of `optimise_numeric_binop` - the statements from `num_nodes = ...` to
-`extra_args = []`: every path that does not `return None` before has them.  This unit discharges them for all nodes and operators
+Those conditions are established by the first part of `optimise_numeric_binop` - its decision prefix (selected structurally: the leading
+assignments / ifs / returns, today from `num_nodes = ...` to `extra_args = []`): every path that does not `return None` before has them.  This unit discharges them for all nodes and operators
 (fragment subject, located by source anchors on every run), so the helpers' call-site precondition is no longer only assumed.
 Nodes and types are identities with fields; isinstance tests are uninterpreted predicates; has_constant_result() is a stub.
 Not covered: the second part (helper name, utility code, extra arguments), the callers' choice of `operator`.
@@ -31,11 +31,45 @@ def _local(e, name):
     return v
 
 
+def _select_gate(fn):
+    """the decision prefix of the function (no local is named by the contract): all leading statements made of assignments / ifs / returns with
+    calls only to isinstance / abs / has_constant_result; roles: `const` = the local bound to `arg1` in one branch and to `arg0` in another,
+    `is_float` = the local bound to an isinstance(<const>, ...) test"""
+    import ast
+    from dv.pyunit import guard_prefix
+    from dv.pyfe import StaleContract
+    stmts = guard_prefix(fn, allowed_calls=("isinstance", "abs", "has_constant_result"))
+    if not stmts:
+        raise StaleContract("optimise_numeric_binop has no decision prefix")
+    bound = {}
+    for s in stmts:
+        for n in ast.walk(s):
+            if not (isinstance(n, ast.Assign) and len(n.targets) == 1):
+                continue
+            t, v = n.targets[0], n.value
+            pairs = [(t, v)] if isinstance(t, ast.Name) else list(zip(t.elts, v.elts)) if (
+                isinstance(t, ast.Tuple) and isinstance(v, ast.Tuple) and len(t.elts) == len(v.elts)) else []
+            for a, b in pairs:
+                if isinstance(a, ast.Name) and isinstance(b, ast.Name) and b.id in ("arg0", "arg1"):
+                    bound.setdefault(a.id, set()).add(b.id)
+    # the constant node is the one of them whose `.constant_result` the prefix reads (the other one, if any, is the variable operand)
+    reads = {n.value.id for s in stmts for n in ast.walk(s) if isinstance(n, ast.Attribute) and n.attr == "constant_result" and isinstance(n.value, ast.Name)}
+    consts = [k for k, v in bound.items() if v == {"arg0", "arg1"} and k in reads]
+    if len(consts) != 1:
+        raise StaleContract("no single local is bound to arg1 in one branch and to arg0 in the other and read for its constant_result")
+    floats = [n.targets[0].id for s in stmts for n in ast.walk(s)
+              if isinstance(n, ast.Assign) and len(n.targets) == 1 and isinstance(n.targets[0], ast.Name) and isinstance(n.value, ast.Call)
+              and isinstance(n.value.func, ast.Name) and n.value.func.id == "isinstance" and isinstance(n.value.args[0], ast.Name) and n.value.args[0].id == consts[0]]
+    if len(floats) != 1:
+        raise StaleContract("no single local holds isinstance(<constant node>, ...)")
+    return stmts, {"const": consts[0], "is_float": floats[0]}
+
+
 def _post(e):
     if "$fell_through" not in e.vars:
         return z3.BoolVal(True)            # `return None`: no helper is selected
-    numval = _local(e, "numval").addr
-    is_float = _local(e, "is_float").b
+    numval = _local(e, e.roles["const"]).addr
+    is_float = _local(e, e.roles["is_float"]).b
     c = e.h.fld("constant_result", numval)
     divlike = Or(*[e.operator == intern_id(op) for op in DIVLIKE])
     return And(Implies(Not(is_float), And(c >= -(2 ** 30), c <= 2 ** 30)),
@@ -129,8 +163,9 @@ def _gate_units(tier):
                callees={"Node.has_constant_result": Callee("Node.has_constant_result", ["self"], result_kind="bool")},
                native=_native, search=lambda seed, ob: _native({}, ob),
                options={"fields": FIELDS, "merge": False, "modules": {"PyrexTypes": "obj:Type", "ExprNodes": "obj:Class"},
-                        "dynamic_classes": ("obj:Node",), "fragment": {"start": r"^num_nodes = ", "end": r"^extra_args = \[\]$"}},
-               subject={"fragment": "from `num_nodes = ...` to `extra_args = []`: the conditions under which a helper is selected"})
+                        "dynamic_classes": ("obj:Node",), "fragment": {"select": _select_gate}},
+               subject={"fragment": "the decision prefix of the function (structurally selected: leading assignments / ifs / returns, up to the first statement that "
+                                    "builds nodes): the conditions under which a helper is selected"})
     return [u]
 
 
